@@ -1389,6 +1389,21 @@ func (e *Engine) concreteSprint(name string, args []Value) (Value, bool) {
 				out[i] = byte(t.val)
 			}
 			goArgs = append(goArgs, out)
+		case ArrayV:
+			// byte arrays (roots, signatures, public keys): formatted like the []byte of their contents for the verbs used
+			// in this code base (%x, %#x); other verbs print a Go array differently, so only those are accepted
+			if !strings.Contains(format, "x") || strings.ContainsAny(format, "vds") {
+				return nil, false
+			}
+			out := make([]byte, len(v.e))
+			for i, b := range v.e {
+				t, ok := b.(*Term)
+				if !ok || !t.IsConst() || t.W != 8 {
+					return nil, false
+				}
+				out[i] = byte(t.val)
+			}
+			goArgs = append(goArgs, out)
 		default:
 			return nil, false
 		}
